@@ -413,7 +413,19 @@ func (env *SpecEnv) loopLocal(name string) (Val, bool, error) {
 			return Val{T: t, S: vc.sorts.sortOf(et), Typ: et}, true, nil
 		}
 	}
-	// heap-allocated (escaping) locals are not supported in invariants
+	// a heap-allocated (escaping) local of struct type: the variable denotes the struct behind its allocation,
+	// so field selections go through the pointer (other escaping locals are not supported in invariants)
+	for _, b := range env.fn.Blocks {
+		for _, ins := range b.Instrs {
+			if a, ok := ins.(*ssa.Alloc); ok && a.Heap && a.Pos() == obj.Pos() {
+				if _, isStruct := a.Type().(*types.Pointer).Elem().Underlying().(*types.Struct); isStruct {
+					if v, ok := vc.vals[a]; ok {
+						return Val{T: v.T, S: v.S, Typ: a.Type()}, true, nil
+					}
+				}
+			}
+		}
+	}
 	if os.Getenv("BMVERIF_DEBUG_LOCALS") != "" {
 		fmt.Fprintf(os.Stderr, "loopLocal %s: obj at %v; candidates:", name, vc.eng.fset.Position(obj.Pos()))
 		for a := range env.cur.locals {
